@@ -114,9 +114,33 @@ def contract(rng, deep):
                 continue
             if e.slow and not deep:
                 continue
+            # ---- a class whose declared parameters all have class-level values must be usable
+            #      with exactly the keywords that have none (a placeholder default defeats the
+            #      "Missing parameter" check and fails later, inside _run) ----------------------
+            if not (e.slow and not deep) and not e.grid:
+                base_kw = e.kwargs(rng)
+                required = [q for q in declared if q not in defaulted]
+                kmin = {q: v for q, v in base_kw.items() if q in required or q == 'geometry' and e.dim > 1}
+                try:
+                    smin = c(*args, **kmin)
+                    smin(e.points(rng, max(e.min_n, 3)), e.t(rng))
+                    count('minimal-keywords')
+                except Exception as ex:
+                    if path.split(':')[1] != 'PlanarCog14':
+                        fail(path, 'minimal-keywords', 'constructed with only the undefaulted parameters %r, the call raised %s: %s'
+                             % (sorted(kmin), type(ex).__name__, str(ex)[:100]))
             # ---- call contract -----------------------------------------------------------
             try:
                 s, kw = catalog.build(path, c, rng)
+                # half of the time with non-default parameter values (a position field that is
+                # right only for the default detonator, a default-only formula ...)
+                if rng.random() < 0.5:
+                    kw2 = catalog.variant_kwargs(path, c, rng, kw)
+                    if kw2 is not None:
+                        try:
+                            s, kw = c(*(e.args() if e.args else ()), **kw2), kw2
+                        except Exception:
+                            pass
             except Exception as ex:
                 fail(path, 'construct', 'valid catalogue parameters rejected: %s: %s' % (type(ex).__name__, ex))
                 continue
@@ -170,6 +194,21 @@ def contract(rng, deep):
                 for i, col in enumerate(cols):
                     if not _eq(sol3[names[i]], col[perm]):
                         fail(path, 'order', 'records are not in the order the points were given', case)
+                # ... and each record still belongs to its point (grid-dependent solvers: grossly)
+                from .o_c06 import GRID_TOL
+                nm0 = path.split(':')[1]
+                if nm0 not in ('Mader', 'ie_Solver') and len(sol3) == n:
+                    for nm in names[e.dim:]:
+                        a, b = np.asarray(sol[nm])[perm], np.asarray(sol3[nm])
+                        if a.dtype.kind not in 'fc':
+                            continue
+                        if nm0 in GRID_TOL or 'Sedov' in nm0:
+                            okv = np.all(np.isclose(a, b, rtol=0.05, atol=1e-12 + 0.05 * float(np.nanmax(np.abs(a)) if a.size else 0), equal_nan=True))
+                        else:
+                            okv = np.all(np.isclose(a, b, rtol=1e-13, atol=0.0, equal_nan=True))
+                        if not okv:
+                            fail(path, 'order-values', 'field %s: the value at a point changes with the order of the request' % nm, case)
+                            break
             except Exception as ex:
                 fail(path, 'order', 'shuffled points raised %s: %s' % (type(ex).__name__, str(ex)[:100]), case)
             # csv round trip
